@@ -28,6 +28,9 @@
 (*  S.pool[r] = [used, cap]    S.waitq = devices waiting for resources     *)
 (*  S.lost    = <<dev, part>> pairs reported lost by failures              *)
 (*  S.cnt[label][d], S.lastlevel[d], S.lastres[r]: recorded datapoints     *)
+(*  S.sch[i]  = action scheduler i of the configuration: [idx, state, nrec]; its  *)
+(*              action blocks the input of its target devices in state "off" and  *)
+(*              unblocks it in any other state                                    *)
 (*  S.mt      = the maintainer: [queue, active, util, value, nvh, enter,   *)
 (*              start, finish]; an order is <<target device, tag>>         *)
 (*  S.nleaf   = number of leaf parts generated so far                      *)
@@ -86,6 +89,7 @@ S0 == [now |-> 0,
        lastres |-> [r \in Resources |-> <<0, cfg.pools[r]>>],
        nleaf |-> 0, inited |-> FALSE,
        occ |-> <<>>, sd |-> <<>>,
+       sch |-> [i \in DOMAIN cfg.scheds |-> [idx |-> 0, state |-> "-", nrec |-> 0]],
        mt |-> [queue |-> <<>>, active |-> <<>>, util |-> 0, value |-> 0, nvh |-> 0, enter |-> 0, start |-> 0, finish |-> 0]]
 
 (***************************************************************************)
@@ -552,6 +556,24 @@ Rewire(S, d, new) ==
                          ELSE go(SpaceAvail([T EXCEPT !.down[u] = Append(@, d)], u, 0), i + 1)
     IN go(S2, 1)
 
+(* ActionScheduler attached to floor devices (the OperatingSchedule shape): entering timetable      *)
+(* entry k sets the state, writes one schedule_update record, runs the action for every target in   *)
+(* registration order and schedules the next transition                                              *)
+SchedId(i) == -2000 - i
+RECURSIVE ApplyTo(_, _, _, _)
+ApplyTo(S, ts, k, off) == IF k > Len(ts) THEN S ELSE ApplyTo(SetBlock(S, ts[k], off), ts, k + 1, off)
+EnterSched(S, i, k) ==
+    LET c == cfg.scheds[i]
+        st == c.tt[k][2]
+        S1 == [S EXCEPT !.sch[i] = [idx |-> k, state |-> st, nrec |-> @.nrec + 1]]
+        S2 == ApplyTo(S1, c.targets, 1, st = "off") IN
+    SchedArg(S2, S.now + c.tt[k][1], SchedId(i), "sched", 110, i)
+SchedTransition(S, i) ==
+    LET c == cfg.scheds[i]
+        k == S.sch[i].idx + 1 IN
+    IF ~c.cyc /\ k > Len(c.tt) THEN [S EXCEPT !.sch[i].idx = k]
+    ELSE EnterSched(S, i, ((k - 1) % Len(c.tt)) + 1)
+
 Script(S, c) ==
     CASE c.call = "fail"     -> SchedArg(S, S.now + c.arg, c.dev, "fail", 50, 0)
       [] c.call = "shutdown" -> Shutdown(S, c.dev, FALSE, 0)
@@ -584,6 +606,7 @@ Dispatch(S, e) ==
            [] e.kind = "fail"    -> Fail(S1, e.asset)
            [] e.kind = "check"   -> CheckPending(S1)
            [] e.kind = "script"  -> Script(S1, cfg.script[e.arg])
+           [] e.kind = "sched"   -> SchedTransition(S1, e.arg)
            [] e.kind = "mstart"  -> StartOrder(S1, e.arg)
            [] e.kind = "mfinish" -> FinishOrder(S1, e.arg)
            [] OTHER -> S1
@@ -598,5 +621,7 @@ Initialise(S) ==
         sc(T, i) == IF i > Len(cfg.script) THEN T
                     ELSE sc(IF cfg.script[i].between THEN T
                             ELSE SchedArg(T, cfg.script[i].t, -2, "script", cfg.script[i].prio, i), i + 1)
-    IN sc(go([S EXCEPT !.inited = TRUE], 1), 1)
+        RECURSIVE sd(_, _)
+        sd(T, i) == IF i > Len(cfg.scheds) THEN T ELSE sd(EnterSched(T, i, 1), i + 1)
+    IN sc(sd(go([S EXCEPT !.inited = TRUE], 1), 1), 1)
 =============================================================================
